@@ -119,6 +119,8 @@ def main():
                 if m and "no-failing-input-found" not in v:
                     replay = m.group(1)
                     break
+            if replay is None and viol:
+                replay = re.search(r"replay=(\S+)", viol[0]).group(1)
             if replay:
                 rep_mut = sh(f"./check C04 --replay {replay}", timeout=300).returncode
         finally:
